@@ -3517,6 +3517,7 @@ SDsetnbitdataset(int32 id,        /* IN: dataset ID */
     NC_var    *var    = NULL;
     model_info m_info; /* modeling information for the HCcreate() call */
     comp_info  c_info; /* "compression" information for the HCcreate() call */
+    intn       new_ref = FALSE; /* the data set got its reference number in this call */
     int        status;
     int        ret_value = SUCCEED;
 
@@ -3555,10 +3556,15 @@ SDsetnbitdataset(int32 id,        /* IN: dataset ID */
         if (var->data_ref == 0) {
             HGOTO_ERROR(DFE_ARGS, FAIL);
         }
+        new_ref = TRUE;
     } /* end if */
 
     status = (int)HCcreate(handle->hdf_file, (uint16)DATA_TAG, (uint16)var->data_ref, COMP_MODEL_STDIO,
                            &m_info, COMP_CODE_NBIT, &c_info);
+
+    /* no element was created: the data set must not keep the reference number meant for it */
+    if (status == FAIL && new_ref)
+        var->data_ref = 0;
 
     if (status != FAIL) {
         if (var && (var->aid != 0) && (var->aid != FAIL)) {
